@@ -279,34 +279,88 @@ Definition fused_recv (os : list op) (c : cfg) (credit : Z) (m : inmsg) : Z * li
   end.
 
 (* --- batchFlowActor (stage_flow.go); the maxWait timer is not modelled (harness uses 1h) --- *)
-Record batch_st := { b_window : list Z (* in arrival order *); b_credit : Z; b_demand : Z }.
-Definition batch_init := {| b_window := []; b_credit := 0; b_demand := 0 |}.
+(* [batch_recv] mirrors the REPAIRED actor (fixes/C45-batch-flush-without-demand.diff): full windows
+   held back for lack of demand are emitted when demand arrives, flush emits at most maxSize elements,
+   and completion waits until the last (partial) batch has been delivered.
+   [batch_recv0] mirrors the actor before the repair: flush is a no-op without demand, so windows
+   grow beyond maxSize and the window is dropped when upstream completes without demand. *)
+Record batch_st := { b_window : list Z (* in arrival order *); b_credit : Z; b_demand : Z; b_completing : bool }.
+Definition batch_init := {| b_window := []; b_credit := 0; b_demand := 0; b_completing := false |}.
 
-Definition batch_flush (st : batch_st) : batch_st * list action :=
-  if b_demand st <=? 0 then (st, []) else
-  ({| b_window := []; b_credit := b_credit st; b_demand := b_demand st - 1 |},
-   [ADown (DElem (VL (b_window st)))]).
+Definition batch_take (n : nat) (w : list Z) : nat :=
+  if ((0 <? n) && (n <? length w))%nat then n else length w.
+
+(* the loop of drain: one flush per iteration *)
+Fixpoint batch_drain_loop (fuel n : nat) (completing : bool) (w : list Z) (demand : Z)
+  : list Z * Z * list action :=
+  match fuel with
+  | O => (w, demand, [])
+  | S f =>
+    if (demand >? 0) && (match w with [] => false | _ => true end) && ((n <=? length w)%nat || completing)
+    then let k := batch_take n w in
+         let '(w', d', acts) := batch_drain_loop f n completing (skipn k w) (demand - 1) in
+         (w', d', ADown (DElem (VL (firstn k w))) :: acts)
+    else (w, demand, [])
+  end.
+
+Definition batch_drain (n : nat) (st : batch_st) : batch_st * list action :=
+  let '(w', d', acts) := batch_drain_loop (S (length (b_window st))) n (b_completing st) (b_window st) (b_demand st) in
+  ({| b_window := w'; b_credit := b_credit st; b_demand := d'; b_completing := b_completing st |},
+   acts ++ (if b_completing st && (match w' with [] => true | _ => false end)
+            then [ADown DComplete; AShutdown] else [])).
 
 Definition batch_request (c : cfg) (st : batch_st) : batch_st * list action :=
+  if b_completing st then (st, []) else
   let available := c_init c - b_credit st - Z.of_nat (length (b_window st)) in
   if available <=? 0 then (st, []) else
   if b_credit st >? c_refill c then (st, []) else
-  ({| b_window := b_window st; b_credit := b_credit st + available; b_demand := b_demand st |},
+  ({| b_window := b_window st; b_credit := b_credit st + available; b_demand := b_demand st;
+      b_completing := b_completing st |},
    [AUp (URequest available)]).
 
 Definition batch_recv (n : nat) (c : cfg) (st : batch_st) (m : inmsg) : batch_st * list action :=
   match m with
   | FromDown (URequest k) =>
-    batch_request c {| b_window := b_window st; b_credit := b_credit st; b_demand := b_demand st + k |}
+    let '(st2, a2) := batch_drain n {| b_window := b_window st; b_credit := b_credit st;
+                                       b_demand := b_demand st + k; b_completing := b_completing st |} in
+    let '(st3, a3) := batch_request c st2 in (st3, a2 ++ a3)
   | FromUp (DElem (VZ x)) =>
-    let st1 := {| b_window := b_window st ++ [x]; b_credit := b_credit st - 1; b_demand := b_demand st |} in
-    let '(st2, a2) := if (n <=? length (b_window st1))%nat then batch_flush st1 else (st1, []) in
+    let '(st2, a2) := batch_drain n {| b_window := b_window st ++ [x]; b_credit := b_credit st - 1;
+                                       b_demand := b_demand st; b_completing := b_completing st |} in
     let '(st3, a3) := batch_request c st2 in (st3, a2 ++ a3)
   | FromUp (DElem (VL _)) =>
-    ({| b_window := b_window st; b_credit := b_credit st - 1; b_demand := b_demand st |},
+    ({| b_window := b_window st; b_credit := b_credit st - 1; b_demand := b_demand st;
+        b_completing := b_completing st |},
      [AUp UCancel; ADown (DError type_err); AShutdown])
   | FromUp DComplete =>
-    let '(st2, a2) := match b_window st with [] => (st, []) | _ => batch_flush st end in
+    batch_drain n {| b_window := b_window st; b_credit := b_credit st; b_demand := b_demand st;
+                     b_completing := true |}
+  | FromUp (DError e) => (st, [ADown (DError e); AShutdown])
+  | FromDown UCancel => (st, [AUp UCancel; AShutdown])
+  | WorkerDone _ => (st, [])
+  end.
+
+(* before the repair *)
+Definition batch_flush0 (st : batch_st) : batch_st * list action :=
+  if b_demand st <=? 0 then (st, []) else
+  ({| b_window := []; b_credit := b_credit st; b_demand := b_demand st - 1; b_completing := false |},
+   [ADown (DElem (VL (b_window st)))]).
+
+Definition batch_recv0 (n : nat) (c : cfg) (st : batch_st) (m : inmsg) : batch_st * list action :=
+  match m with
+  | FromDown (URequest k) =>
+    batch_request c {| b_window := b_window st; b_credit := b_credit st; b_demand := b_demand st + k;
+                       b_completing := false |}
+  | FromUp (DElem (VZ x)) =>
+    let st1 := {| b_window := b_window st ++ [x]; b_credit := b_credit st - 1; b_demand := b_demand st;
+                  b_completing := false |} in
+    let '(st2, a2) := if (n <=? length (b_window st1))%nat then batch_flush0 st1 else (st1, []) in
+    let '(st3, a3) := batch_request c st2 in (st3, a2 ++ a3)
+  | FromUp (DElem (VL _)) =>
+    ({| b_window := b_window st; b_credit := b_credit st - 1; b_demand := b_demand st; b_completing := false |},
+     [AUp UCancel; ADown (DError type_err); AShutdown])
+  | FromUp DComplete =>
+    let '(st2, a2) := match b_window st with [] => (st, []) | _ => batch_flush0 st end in
     (st2, a2 ++ [ADown DComplete; AShutdown])
   | FromUp (DError e) => (st, [ADown (DError e); AShutdown])
   | FromDown UCancel => (st, [AUp UCancel; AShutdown])
@@ -384,6 +438,7 @@ Inductive kind :=
 | KFlow (o : op) (c : cfg)
 | KFused (os : list op) (c : cfg)
 | KBatch (n : nat) (c : cfg)
+| KBatch0 (n : nat) (c : cfg)          (* the batch actor before the repair *)
 | KPar (ordered : bool) (w : nat) (a b : Z).
 
 Inductive kstate :=
@@ -396,7 +451,7 @@ Definition kinit (k : kind) : kstate :=
   match k with
   | KFlow o _ => SFlow (flow_init o)
   | KFused _ c => SFused (fused_init c)
-  | KBatch _ _ => SBatch batch_init
+  | KBatch _ _ | KBatch0 _ _ => SBatch batch_init
   | KPar _ _ _ _ => SPar par_init
   end.
 
@@ -413,6 +468,7 @@ Definition krecv (k : kind) (s : kstate) (m : inmsg) : kstate * list action :=
   | KFlow o c, SFlow st => let '(st', a) := flow_recv o c st m in (SFlow st', a)
   | KFused os c, SFused cr => let '(cr', a) := fused_recv os c cr m in (SFused cr', a)
   | KBatch n c, SBatch st => let '(st', a) := batch_recv n c st m in (SBatch st', a)
+  | KBatch0 n c, SBatch st => let '(st', a) := batch_recv0 n c st m in (SBatch st', a)
   | KPar ord _ a b, SPar st => let '(st', acts) := par_recv ord a b st m in (SPar st', acts)
   | _, _ => (s, [])
   end.
@@ -459,7 +515,7 @@ Definition kind_ops (k : kind) : list op :=
   match k with
   | KFlow o _ => [o]
   | KFused os _ => os
-  | KBatch n _ => [OBatch n]
+  | KBatch n _ | KBatch0 n _ => [OBatch n]
   | KPar ord w a b => [OParMap ord w a b]
   end.
 
